@@ -19,6 +19,10 @@ type Subscription struct {
 	sub   Subscriber
 	field *Field
 	args  map[string]interface{}
+
+	// etype is the type of the events, the declared type of the
+	// subscription field.
+	etype Type
 }
 
 // NewSubscription creates a new subscription. It should be called in a
@@ -32,5 +36,7 @@ func NewSubscription(sub Subscriber, field *Field, args map[string]interface{}) 
 }
 
 func (sub *Subscription) prep(root *Root) {
-	sub.field.ConType = root.getFieldType(sub.field.ConType, sub.field.Name)
+	// Kept with the subscription and not in the parsed field, the field is
+	// shared by every subscription made with the same parsed executable.
+	sub.etype = root.getFieldType(sub.field.ConType, sub.field.Name)
 }
